@@ -55,20 +55,24 @@ impl<S, C> Framed<S, C> {
 pub struct relay__Result { _r: u8 }
 #[verifier::external_body]
 pub struct QuicStream { _r: u8 }
-/// one outbound connection attempt of the client, as the steps taken for it: TCP connect to (host, port); TLS handshake for (host, port) under an
+/// one outbound connection attempt of the client, as the steps taken for it: TCP connect to (host, port); TLS handshake for a server name under an
 /// ssl section; WebSocket handshake for (host, port) under a ws section; or a QUIC connection to (host, port) under a quic section
 pub struct Dial {
     pub tcp: Option<(Seq<char>, u16)>,
-    pub tls: Option<(Seq<char>, u16, SslConfig)>,
+    pub tls: Option<(Seq<char>, SslConfig)>,
     pub ws: Option<(Seq<char>, u16, WebSocketConfig)>,
     pub quic: Option<(Seq<char>, u16, SslConfig)>,
 }
 pub struct TransportLog { pub dials: Seq<Dial>, pub relays: Seq<nat> }
+/// README `serverName` (optional): the name the TLS handshake is made for is the configured one, the server's host otherwise
+pub open spec fn tls_name(host: Seq<char>, ssl: SslConfig) -> Seq<char> {
+    if ssl.server_name is Some { ssl.server_name->0@ } else { host }
+}
 /// README "Transport": quic section -> QUIC; otherwise TCP to the server, then TLS iff an ssl section, then WebSocket iff a ws section
 pub closed spec fn dial_of(c: &ServerConfig<SslConfig>) -> Dial {
     if c.quic is Some { Dial { tcp: None, tls: None, ws: None, quic: Some((c.host@, c.port, c.quic->0)) } }
     else { Dial { tcp: Some((c.host@, c.port)),
-        tls: if c.ssl is Some { Some((c.host@, c.port, c.ssl->0)) } else { None },
+        tls: if c.ssl is Some { Some((tls_name(c.host@, c.ssl->0), c.ssl->0)) } else { None },
         ws: if c.ws is Some { Some((c.host@, c.port, c.ws->0)) } else { None },
         quic: None } }
 }
@@ -94,12 +98,38 @@ impl TcpStream {
 #[verifier::external_body]
 #[verifier::accept_recursive_types(S)]
 pub struct TlsStream<S> { _s: core::marker::PhantomData<S> }
-/// client/template.rs rustls_stream (TCP connect, rustls client configuration, TLS handshake with the configured or the host's server name): NOT verified
+/// ToOwned for Clone types (std blanket impl): to_owned is clone
+pub assume_specification<T: Clone>[ <T as std::borrow::ToOwned>::to_owned ](t: &T) -> (r: T)
+    ensures call_ensures(T::clone, (t,), r);
+/// rustls client configuration as built by client/template.rs rustls_client_config (root store or platform verifier): NOT verified; it remembers its ssl section
 #[verifier::external_body]
-fn rustls_stream(host: &str, port: u16, ssl_config: &SslConfig, Tracked(vlog): Tracked<&mut TransportLog>) -> (r: Result<TlsStream<TcpStream>>)
-    ensures final(vlog).relays == old(vlog).relays,
-        one_dial(old(vlog).dials, final(vlog).dials, Dial { tcp: Some((host@, port)), tls: Some((host@, port, *ssl_config)), ws: None, quic: None }, r is Ok)
+pub struct ClientConfig { _s: u8 }
+impl ClientConfig { pub uninterp spec fn made_from(&self) -> SslConfig; }
+#[verifier::external_body]
+fn rustls_client_config(ssl_config: &SslConfig) -> (r: Result<ClientConfig>)
+    ensures r matches Ok(c) ==> c.made_from() == *ssl_config
 { unimplemented!() }
+/// tokio_rustls::TlsConnector, rustls ServerName (TRUSTED): the handshake is a step of the attempt under way, for the name and configuration given
+#[verifier::external_body]
+pub struct TlsConnector { _s: u8 }
+#[verifier::external_body]
+pub struct ServerName { _s: u8 }
+impl ServerName {
+    pub uninterp spec fn text(&self) -> Seq<char>;
+    #[verifier::external_body]
+    fn try_from(s: String) -> (r: Result<ServerName>) ensures r matches Ok(n) ==> n.text() == s@ { unimplemented!() }
+}
+impl TlsConnector {
+    pub uninterp spec fn cfg(&self) -> SslConfig;
+    #[verifier::external_body]
+    fn from(c: Arc<ClientConfig>) -> (r: TlsConnector) ensures r.cfg() == (*c).made_from() { unimplemented!() }
+    #[verifier::external_body]
+    fn connect(&self, name: ServerName, s: TcpStream, Tracked(vlog): Tracked<&mut TransportLog>) -> (r: Result<TlsStream<TcpStream>, WsError>)
+        requires old(vlog).dials.len() > 0
+        ensures final(vlog).relays == old(vlog).relays,
+            final(vlog).dials == old(vlog).dials.drop_last().push(Dial { tls: Some((name.text(), self.cfg())), ..old(vlog).dials.last() })
+    { unimplemented!() }
+}
 /// tokio_websockets::ClientBuilder as built by client/template.rs new_ws_builder (headers, ws:// URI): NOT verified; it remembers what it was built for
 #[verifier::external_body]
 pub struct ClientBuilder { _s: u8 }
@@ -288,7 +318,7 @@ where
     ensures
         //#C16 C01
         final(vlog).relays == old(vlog).relays,
-        one_dial(old(vlog).dials, final(vlog).dials, Dial { tcp: Some((host@, port)), tls: Some((host@, port, *ssl_config)), ws: None, quic: None }, r is Ok),
+        one_dial(old(vlog).dials, final(vlog).dials, Dial { tcp: Some((host@, port)), tls: Some((tls_name(host@, *ssl_config), *ssl_config)), ws: None, quic: None }, r is Ok),
         r matches Ok(f) ==> f.codec() == codec,
 {
     let outbound = rustls_stream(host, port, ssl_config, Tracked(vlog))?;
@@ -323,10 +353,29 @@ where
     ensures
         //#C16 C01
         final(vlog).relays == old(vlog).relays,
-        one_dial(old(vlog).dials, final(vlog).dials, Dial { tcp: Some((host@, port)), tls: Some((host@, port, *ssl_config)), ws: Some((host@, port, *ws_config)), quic: None }, r is Ok),
+        one_dial(old(vlog).dials, final(vlog).dials, Dial { tcp: Some((host@, port)), tls: Some((tls_name(host@, *ssl_config), *ssl_config)), ws: Some((host@, port, *ws_config)), quic: None }, r is Ok),
         r matches Ok(f) ==> f.codec() == codec,
 {
     let outbound = rustls_stream(host, port, ssl_config, Tracked(vlog))?;
     let (outbound, _) = new_ws_builder(host, port, ws_config)?.connect_on(outbound, Tracked(vlog)).map_err(|e| verif_err())?;
     Ok(WebSocketFramed::new(outbound, codec))
+}
+
+//@@ octo-squirrel-client/src/client/template.rs:368-378  fn rustls_stream  sha=916d255d3a37d89f
+fn rustls_stream(host: &str, port: u16, ssl_config: &SslConfig, Tracked(vlog): Tracked<&mut TransportLog>) -> (r: Result<TlsStream<TcpStream>>)
+    ensures
+        //#C16 C01
+        final(vlog).relays == old(vlog).relays,
+        // TCP to the server, then the TLS handshake under this ssl section, for the configured server name or else the host
+        one_dial(old(vlog).dials, final(vlog).dials, Dial { tcp: Some((host@, port)), tls: Some((tls_name(host@, *ssl_config), *ssl_config)), ws: None, quic: None }, r is Ok),
+{
+    let stream = TcpStream::connect((host, port), Tracked(vlog))?;
+    let config = rustls_client_config(ssl_config)?;
+    let connector = TlsConnector::from(Arc::new(config));
+    let server_name = if let Some(server_name) = &ssl_config.server_name {
+        ServerName::try_from(server_name.to_owned())?
+    } else {
+        ServerName::try_from(host.to_owned())?
+    };
+    connector.connect(server_name, stream, Tracked(vlog)).map_err(|e| verif_err())
 }
